@@ -236,9 +236,12 @@ def gen_scenario(rng, max_jobs=8, hooks=None, cyclic=False, force=None):
                        "try": rng.random() < 0.6})
         if groups[-1]["time"] and groups[-1]["nproc"] is None:
             groups[-1]["nproc"] = 1
-    used = {j["group"] for j in jobs}
-    for g in groups:      # every group must be used by some job? not required by jade; keep
-        pass
+    # boundary: in a time-batched group a job whose estimate is exactly the walltime (with one process per node it fills a batch alone)
+    for g in groups:
+        if g["time"] and rng.random() < 0.35:
+            mine = [j for j in jobs if j["group"] == g["name"]]
+            if mine:
+                rng.choice(mine)["est"] = g["wall_min"]       # == walltime (the configuration check allows no more)
     hk = hooks if hooks is not None else {k: rng.random() < 0.3 for k in ("setup", "teardown", "node_setup", "node_teardown")}
     sc = {"jobs": jobs, "groups": groups, "max_nodes": maxn, "hooks": hk, "node_cpus": rng.choice([1, 2, 4])}
     if force:
@@ -300,6 +303,8 @@ def py_monitors(sc, trace, final=None):
     pending_rows = []
     collected = []
     unrerun_missing = set()
+    round_rows = {}      # pid -> names of the rows its current round consolidated
+    failed_poll = set()  # pids whose current round had a failed squeue
     node_group = {}
     node_batch = {}
     for i, ev in enumerate(trace):
@@ -417,6 +422,7 @@ def py_monitors(sc, trace, final=None):
             if ev.get("batch") is not None:
                 pending_rows.append(n)
         elif k == "collect" and ev.get("ok"):
+            round_rows.setdefault(ev["p"], []).extend(n for n, rc, stt in ev["rows"])
             for n, rc, stt in ev["rows"]:
                 if n in collected:
                     probs.append(("C08", "row-reported-twice", f"row of {n} reported to two submitter rounds", i))
@@ -438,7 +444,31 @@ def py_monitors(sc, trace, final=None):
             teardown_since_summary = 0
         elif k == "mark_canceled":
             canceled_at = i
+        elif k == "squeue" and not ev.get("ok", True):
+            failed_poll.add(ev["p"])
+        elif k in ("marker_touch", "update_status") and ev["p"] in failed_poll:
+            # the scheduler could not be asked which batches are still active: the round must stop (the next one
+            # proceeds normally), not go on as if every batch had ended
+            failed_poll.discard(ev["p"])
+            for p_ in ("C11", "C18", "C06"):
+                probs.append((p_, "round-continued-after-failed-status-query", f"the round of pid {ev['p']} went on to {k} although its squeue call had failed", i))
+        elif k == "round_begin":
+            failed_poll.discard(ev["p"])
+            round_rows[ev["p"]] = []
+        elif k == "update_status" and ev.get("ok") and isinstance(ev.get("snapshot"), dict) and "jobs" in ev["snapshot"]:
+            state = {j[0]: j[1] for j in ev["snapshot"]["jobs"]}
+            lost = [n for n in round_rows.get(ev["p"], []) if state.get(n) != "done"]
+            if lost:
+                for p_ in ("C08", "C09", "C05"):
+                    probs.append((p_, "collected-result-not-in-status", f"the round of pid {ev['p']} consolidated the results of {lost} but its status update leaves them {[state.get(n) for n in lost]}", i))
+            round_rows[ev["p"]] = []
         elif k == "mark_complete":
+            # a batch whose jobs all have results is only winding down (its own try-submit-jobs may be the one that
+            # completes the submission); a batch that still has work must not be left behind by the completion
+            busy = [b for b in (ev.get("active") or []) if b in node_batch and any(n not in rows for n in node_batch[b][0])]
+            if ev["ok"] and busy and canceled_at is None:
+                for p_ in ("C05", "C11", "C12", "C06", "C18"):
+                    probs.append((p_, "completed-while-batches-active", f"the submission was marked complete while batches {busy} still had jobs without a result", i))
             if ev["ok"]:
                 if completes:
                     probs.append(("C05", "completed-twice", "completion flag set twice", i))
@@ -521,6 +551,11 @@ def apply_action(vc, act, rng):
     if do == "strategy":
         vc.strategy = act["value"]
         return "strategy:" + act["value"]
+    if do == "hold":
+        # hold the process that emitted the triggering event back for a while: the others run, running jobs end
+        vc.strategy = "gap_hunter"
+        vc.gap_hold = [act.get("_pid"), act.get("steps", 30)]
+        return "hold:%s" % act.get("_pid")
     if do == "try":
         vc.try_submit(host=act.get("host", "login1"))
         if act.get("then_strategy"):
@@ -600,6 +635,8 @@ def run_plan(sc, seed, plan=None):
         faults["write_error"] = tuple(plan["write_error"])
     if plan.get("finish_order"):
         faults["finish_order"] = list(plan["finish_order"])
+    if plan.get("scan_error"):
+        faults["scan_error"] = plan["scan_error"]
     vc = vcluster.VirtualCluster(sc, seed=seed, strategy=plan.get("strategy", "random"), schedule=plan.get("schedule"),
                                  break_stale=bool(plan.get("break_stale")), faults=faults)
     applied = []
